@@ -233,7 +233,7 @@ PROPS = {
     'C07': {   'assumptions': [   'series/total/limits below 2^53 (float64 products exact in Base/Float64.v); int32/int64 overflow not modelled',
                        'explorer objects are not mutated within a cycle (value semantics; validated by the differential run)',
                        'time.Now() drift during the run is far below the idle-age margins used by the generator'],
-    'engines': [('coord', 1200, 24000, ['-propok', 'c07_case', '-shardsize', '100'])],
+    'engines': [('coord', 1200, 24000, ['-propok', 'c07_case', '-shardsize', '100']), ('k8s', 300, 6000)],
     'level_note': 'Trusted: Coq kernel; hand-written cycle model tied to the Go code by differential runs under all schedules; generated constants; '
                   'Go harness and driver.',
     'level_text': 'Proof: for every input, option set and schedule, every scale request of the model cycle (early and final) lies in [min,max]; '
@@ -243,13 +243,13 @@ PROPS = {
                   'move); and no request is below the current count when max-idle-time is 0 or needed space is non-zero. The same '
                   'statement is evaluated on the implementation\'s observables by the monitor (c07_used_ok) and the model is compared '
                   'with the real cycle under all schedules.',
-    'rule': 'one PRNG: 1-4 shards (1-6 thorough), 0-5 targets (0-7) over 1-2 jobs; each shard independently ready / status-GET fails / runtime-GET '
+    'rule': '(coord engine) one PRNG: 1-4 shards (1-6 thorough), 0-5 targets (0-7) over 1-2 jobs; each shard independently ready / status-GET fails / runtime-GET '
             'fails / hash differs with push accepted, rejected, still different, re-check failing (65% in sync); per copy state, health, scrape '
             'count from {0,1,2,3,4,5,9}; series/total around the limits (L-1,L,L+1,L/2,...; total >> series); reported loads consistent, at the '
             'limits, at the relief thresholds (1.1,1.4,1.6,1.8 x), tied with shard 0 on purpose; idle ages 30s..100000s vs max-idle 0/60/3600; '
             'min/max shard around the current count; explorer results present/absent/bad/unknown; failing POSTs and failing early scale request; '
             'malformed stream: min>max, max_proc=0. Membership under ALL schedules of the model (enumerated, budget 6000). non-trivial = the cycle '
-            'sent at least one target POST or requested a scale different from the current count; distinct by input',
+            'sent at least one target POST or requested a scale different from the current count; distinct by input || k8s engine (the shard list on which the ordinal reasoning of the coordinator rests): 60% ChangeScale, 20% Shards() with 0-12 pods in shuffled order (ordinal order is not name order from ten pods on), 20% Replicas()',
     'theorems': 'C07_bounds C07_early_request_raises C07_keeps_used C07_holding_shard_kept C07_no_shrink',
     'trusted_base': [   'model Model/Coordinator.v hand-written from rebalance.go/coordinator.go/shard.go; tie = differential run of the real '
                         'Coordinator (hook VerifRunOnce) against scripted shards through Shard.APIGet/APIPost, compared under every schedule of the '
